@@ -27,7 +27,7 @@ LEVEL_NOTE = ("trusted: os.replace is atomic; open(p,'w') creates/truncates, wri
               "other processes: they run the same (verified) code, never delete files, never touch a temporary file "
               "named after another process id; the content of an existing document is one representative older-version "
               "document; power loss (fsync) is outside the model")
-SIDECARS = ["contracts.settingsfs"]
+SIDECARS = ["contracts.settingsfs", "contracts.config"]
 OVERRIDES = _sf.OVERRIDES
 SYMBOLIC_MODULES = _sf.SYMBOLIC
 S, MC = "evo.tools.settings.", "evo.main_config."
